@@ -263,6 +263,13 @@ class DirectCollocation(SamplingMethod):
             if a in algs:
                 initial_alg[a] = v
                 del initial[a]
+        # Guesses for the horizon first: time-dependent guesses are evaluated on the guessed time grid
+        def is_horizon(var):
+            return any(isinstance(e, ca.MX) and e.is_symbolic() and ca.is_equal(var, e) for e in [stage.T, stage.t0, stage._T, stage._t0])
+        ordered = [e for e in initial.items() if is_horizon(e[0])] + [e for e in initial.items() if not is_horizon(e[0])]
+        initial = HashOrderedDict()
+        for a, v in ordered:
+            initial[a] = v
         for var, expr in initial.items():
             if ca.is_equal(var, stage.T):
                 var = self.T
